@@ -237,6 +237,9 @@ def _flow_cases(tier):
          if s.startswith('single_') and s not in names]
   cs += [(s, 'srq8_then_catchall_WO') for s in names
          if not s.startswith('single_') or s == 'single_FC']
+  cs += [(s, 'optype_FC_SRQ8') for s in (
+      'legacy_operator_codes', 'chain_fc_tanh', 'fc_fc', 'single_FC')
+         if s in fam]
   return cs
 
 
